@@ -87,7 +87,7 @@ class World:
         return sorted(res)
 
     # ------------------------------------------------------------ ops
-    def op_edit(self, actor=None, path=None, region=None):
+    def op_edit(self, actor=None, path=None, region=None, kinds=None):
         r = self.r
         actor = actor or r.weighted([(3, "H"), (4, "s1"), (3, "s2")])
         files = self.worktree_files()
@@ -99,7 +99,10 @@ class World:
         ls = self.lines(path) or []
         if actor != "H":
             self.cp_h([path])
-        kind = r.weighted([(5, "ins"), (2, "del"), (3, "rep"), (2, "mod")]) if ls else "ins"
+        table = [(5, "ins"), (2, "del"), (3, "rep"), (2, "mod")]
+        if kinds:
+            table = [(w_, k_) for w_, k_ in table if k_ in kinds]
+        kind = r.weighted(table) if ls else "ins"
         if region == "top":
             pos = 0
         elif region == "bottom":
